@@ -1904,7 +1904,7 @@ func TestC04(t *testing.T) {
 	out := hx.NewOut()
 	defer out.Close("correspondence: full ledger + in-flight records after every op (messages, claim handlers, precompile calls) on 3 users x 3 chains x 6 token groups (one with an IBC voucher alias on a real open channel); monitors: conservation, stated per-holder deltas, withdrawability, ERC-20 books. non-trivial = distinct (op, outcome class)")
 
-	nSeq := hx.N(30, 150)
+	nSeq := hx.N(30, 110) // thorough: 110 sequences x 150 ops (was 150: 28 min on a loaded machine, above the 20-min target)
 	nOps := hx.N(60, 150)
 	if v := hx.Tier(); v == "thorough" {
 		nOps = 150
